@@ -477,9 +477,13 @@ async fn run_case(case: &Case, ctx: &mut Ctx) -> CaseResult {
             node.process_proposal(bc.process_request(block.clone()))
                 .await
                 .map_err(|e| vcommon::Failure::new("honest-proposal-rejected", format!("height {height}: {e}")))?;
-            node.finalize_block(bc.finalize_request(block.clone()))
-                .await
-                .map_err(|e| vcommon::Failure::new("finalize-failed", format!("height {height}: {e}")))?;
+            if let Err(e) = node.finalize_block(bc.finalize_request(block.clone())).await {
+                if l1::is_fee_recipient_overflow(&e) {
+                    ctx.label("history-ends:fee-recipient-balance-would-exceed-u128");
+                    return Ok(());
+                }
+                return Err(vcommon::Failure::new("finalize-failed", format!("height {height}: {e}")));
+            }
             node.commit().await.map_err(|e| vcommon::Failure::new("commit-failed", e))?;
         }
     }
